@@ -10,6 +10,7 @@
  * the same program on ordinary memory gives.
  */
 #include "hcommon.h"
+#include "hcgen.h"
 #include <setjmp.h>
 
 #define PG 4096
@@ -55,6 +56,7 @@ do_line (const char *path, char *line)
 {
   char kind[16], opname[32];
   int n, off, b, c, lo, hi, place, m, native = strcmp (path, "emu") != 0, res, i, r;
+  HCFn cfn = NULL;
   OrcStaticOpcode *op;
   OrcProgram *p;
   OrcExecutor ex;
@@ -74,6 +76,7 @@ do_line (const char *path, char *line)
   if (sscanf (line, "%15s %31s %d %d %d %d %d %d %d %d", kind, opname, &n, &off, &b, &c, &lo, &hi, &place, &m) < 10) return;
   op = orc_opcode_find_by_name (opname);
   if (!op) return;
+  hc_begin_line (line);
   special = strcmp (kind, "plain") != 0;
   memset (arrs, 0, sizeof (arrs));
   p = orc_program_new ();
@@ -93,8 +96,18 @@ do_line (const char *path, char *line)
   }
   while (na < 4) args[na++] = ORC_VAR_D1;
   orc_program_append_2 (p, opname, 0, args[0], args[1], args[2], args[3]);
+  if (hc_mode == 'g') { hc_emit (p); orc_program_free (p); return; }
+  if (hc_mode == 'r') {
+    /* the compiled C function runs on the guarded arrays; emulation of the same program is the comparison */
+    cfn = hc_next ();
+    res = orc_program_compile_for_target (p, NULL);
+    if (!cfn || ORC_COMPILE_RESULT_IS_FATAL (res) || !p->orccode) {
+      HEMIT ("\"e\":\"NoCode\",\"op\":\"%s\",\"path\":\"%s\"", opname, path);
+      orc_program_free (p); return;
+    }
+  } else
   res = native ? orc_program_compile_for_target (p, orc_target_get_by_name (path)) : orc_program_compile_for_target (p, NULL);
-  if ((native && !ORC_COMPILE_RESULT_IS_SUCCESSFUL (res)) || (!native && (ORC_COMPILE_RESULT_IS_FATAL (res) || !p->orccode))) {
+  if (!cfn && ((native && !ORC_COMPILE_RESULT_IS_SUCCESSFUL (res)) || (!native && (ORC_COMPILE_RESULT_IS_FATAL (res) || !p->orccode)))) {
     HEMIT ("\"e\":\"NoCode\",\"op\":\"%s\",\"path\":\"%s\"", opname, path);
     orc_program_free (p); return;
   }
@@ -129,7 +142,7 @@ do_line (const char *path, char *line)
   sa.sa_sigaction = on_fault; sa.sa_flags = SA_SIGINFO | SA_NODEFER;
   sigaction (SIGSEGV, &sa, NULL); sigaction (SIGBUS, &sa, NULL);
   if (sigsetjmp (jb, 1) == 0) {
-    if (native) orc_executor_run (&ex); else orc_executor_emulate (&ex);
+    if (cfn) cfn (&ex); else if (native) orc_executor_run (&ex); else orc_executor_emulate (&ex);
   } else {
     fault = 1;
     farr = which (arrs, names, 4, (void *) fault_addr, &eloff, esize);
@@ -191,8 +204,9 @@ main (int argc, char **argv)
   if (argc < 3) { fprintf (stderr, "usage: h_guard <emu|avx|sse|mmx> <plan>\n"); return 2; }
   f = fopen (argv[2], "r");
   if (!f) { perror (argv[2]); return 2; }
-  HEMIT ("\"e\":\"Reset\"");
   orc_init ();
+  hc_init (argv[1]);
+  HEMIT ("\"e\":\"Reset\"");
   while (getline (&line, &cap, f) > 0) {
     pid_t pid; int st;
     fflush (NULL);
